@@ -55,7 +55,11 @@ func c07Run(x *core.Ctx) {
 		}
 		src := rn.RenderSDoc(&model.SDoc{Items: items})
 		c := core.NewCase("schema", "src", src, "expect", "load")
-		x.Do(c, func() { c07Check(x, c) })
+		// the valid schema is loaded before its faulted variants (same names, other relations) for even i, after them for
+		// odd i, and in one case out of four both: what a load decides must not depend on what was loaded before
+		if i%2 == 0 {
+			x.Do(c, func() { c07Check(x, c) })
+		}
 		if i%5 == 1 {
 			// the same valid text from a source flagged built-in (frameworks ship such sources next to the prelude)
 			cb := core.NewCase("schema", "src", src, "expect", "load", "builtin-first", "1")
@@ -93,6 +97,11 @@ func c07Run(x *core.Ctx) {
 				}
 				x.Do(fc, func() { c07Check(x, fc) })
 			}
+		}
+		if i%2 == 1 || i%4 == 0 {
+			ca := core.NewCase("schema", "src", src, "expect", "load", "after-faulted-variants", "1")
+			x.Do(ca, func() { c07Check(x, ca) })
+			x.Count("valid_loaded_after_faulted_variants")
 		}
 	}
 	// random syntax-level SDL
